@@ -230,11 +230,11 @@ def plan(tier, seed, rng):
     hk = 0
     for t in "fdil":
         for rank in (1, 2, 3):
-            for rep in range((2 if rank == 2 else 1) if quick else 8):
+            for rep in range((3 if rank == 2 else 1) if quick else 9):
                 def mk():
                     pk = 1 if (rank == 3 and t in "di") else 0
                     if rank == 1: pd = [rng.choice([5, 7, 8, 9, 12, 16, 17, 24])]
-                    elif rank == 2: pd = list(rng.choice(RANK2_PARENTS + [(6, 9), (7, 7)]))
+                    elif rank == 2: pd = list(rng.choice(RANK2_PARENTS + [(6, 9), (7, 7)]) if rep % 3 != 2 else rng.choice([(2, 17), (3, 24), (2, 33), (4, 16)]))   # wide rows: >= one AVX / AVX-512 vector of STRIDED columns (scatter helpers)
                     else: pd = shape(3, 400, lastset=(4, 5, 8, 9, 16), pool=(2, 3, 4, 5))
                     axes = [Ax("s", N, rng.randint(1, N)) for N in pd]        # compiled extents used by the tensor-rhs steps
                     kinds = [K_SCALAR, K_TENSOR, K_VIEW, K_EXPR, K_TEXPR, K_ELEM]
